@@ -31,7 +31,7 @@ impl<'a> Shrinker<'a> {
         if crate::model::Model::from_tree(&sc.tree).is_err() {
             return None;
         }
-        let mut env = Env::new(self.scratch.join(format!("r{:016x}", sc.seed)));
+        let mut env = Env::new(self.scratch.join("w0").join(format!("r{:016x}", sc.seed)));
         let res = crate::props::check(sc, &mut env);
         let root_text = env.root_text.clone();
         env.finish();
